@@ -38,6 +38,8 @@ def run_one(name, checks):
             lines = [l for l in p.stdout.splitlines() if l.startswith("VIOLATION") or l.startswith("  ")]
             res[c] = {"rc": p.returncode, "wall_s": round(time.time() - t, 1),
                       "first": (lines[1].strip()[:260] if len(lines) > 1 else lines[0][:200] if lines else "")}
+            if p.returncode not in (0, 1):
+                res[c]["stderr_tail"] = p.stderr[-1500:]
     finally:
         subprocess.call(["git", "-C", "/repo", "worktree", "remove", "--force", wt])
     return name, res
